@@ -1,27 +1,32 @@
 (* Net_props3.v — package J: the fair round terminates.  Restated theorems (closed by `exact`/short scripts), non-vacuity
    examples by vm_compute, `Print Assumptions`.
 
-   What is proved (for every net reached from `net_init n` by steps whose NPut blocks hash to their CID and whose NGet
-   CIDs are well formed; Sz >= 32):
-     * `J_reachable_live`      the liveness invariant `net_live`: nothing that waits is left without its wake-up;
-     * `J_round_decreases`     the potential `Phi` (Net_proofs23; an explicit weighted count of the work in the net) is
-                               strictly lowered by every fair round of a net that is not quiet, and no schedule step raises it;
-     * `settle_terminates_partial2`  hence the loop of `settle` reaches a quiet net within `Phi s` rounds;
-     * `settle_terminates_covered`   hence `settle` itself (its concrete fuel `settle_fuel s`) ends quiet whenever
-                               `Phi s <= settle_fuel s` — a condition on the START state, decidable by computation;
-     * the same after an advance of the clock (`refresh`);
-     * `settle_phi_quiet`, `settle_quiet_agrees`, `refresh_quiet_agrees`: `settle_phi s = settle_loop (Phi s) s` (Net.v's settle
-       with the fuel Phi) always ends quiet, and whenever Net.v's `settle` / `refresh` end quiet they return what `settle_phi` /
-       `refresh_phi` return — the hypotheses `quietb (fst (settle …)) = true` of the registered theorems say "the concrete fuel
-       was enough", nothing more;
-     * `C02_direct_phi`, `C02_multi_hop_phi`, `C14_records_equal_phi`: the registered theorems for settle_phi / refresh_phi
-       WITHOUT the quiet hypotheses (proved in Net_proofs32 for any settle-like function, by the proofs of packages F and G).
-   What is NOT proved: `Phi s <= settle_fuel s` for every reachable net.  It is false (`J_fuel_not_covered_by_Phi`:
-   six freshly connected idle nodes have Phi = 90 > 36 = settle_fuel, yet settle needs two rounds): `Phi` counts steps of
-   the schedule, a round performs many of them at once, and the fuel of Net.v is linear in the work that is visible —
-   the full `settle_terminates` needs a bound on ROUNDS (parallel time), not on steps. *)
+   Setting: Sz >= 32, the same multihasher table everywhere, any net reached from `net_init n` by any steps `ops` whose NPut
+   blocks hash to their CID and whose NGet CIDs are well formed.
+
+   MAIN RESULT
+     * `settle_terminates`     quietb (fst (settle Sz Hh s)) = true: the explicit fuel of Net.v's `settle` always suffices;
+       `refresh_terminates`    the same one wantlist refresh period later;
+     * `C02_direct_unconditional`, `C02_multi_hop_unconditional`, `C14_records_equal_unconditional`: the registered theorems of
+       Net_props / Net_props2 without their hypotheses `quietb … = true` (the 1024-entry cap of the server stays).
+   HOW (Net_proofs23 … 36)
+     * `J_reachable_live`      the liveness invariant `net_live` of reachable nets: nothing that waits is left without its
+                               wake-up (parked client and server tasks have their store call outstanding, tasks with something
+                               to do are queued, every record whose handler is busy has its wantlist on the wire);
+     * `J_round_decreases`     a potential `Phi` (Net_proofs23; a weighted count of the STEPS still to do) is strictly lowered by
+                               every fair round of a net that is not quiet, and no schedule step raises it; hence
+       `settle_terminates_partial2`: the loop of `settle` reaches a quiet net within `Phi s` rounds.  `Phi` is not below the fuel
+                               of Net.v in general (`J_fuel_not_covered_by_Phi`): it counts steps, a round does many at once;
+     * `J_clean_round_decreases`  the bound on ROUNDS: after one round nothing is in flight and no store call is outstanding
+                               (`round_clean`), and on such nets every round lowers `HH + AA` (Net_proofs29: HH the heavy work,
+                               which only events lower but which no step raises, AA <= 2 the light work that all nodes do at the
+                               same time); `J_HH_fuel`: HH + 3 <= settle_fuel.  Together: settle_terminates.
+   ALSO (an earlier, fuel-independent form; kept)
+     * `settle_phi_quiet`, `settle_quiet_agrees`, `refresh_quiet_agrees`, `C02_direct_phi`, `C02_multi_hop_phi`,
+       `C14_records_equal_phi`: the same theorems for `settle_phi s = settle_loop (Phi s) s`; by settle_terminates and
+       settle_quiet_agrees, `settle` and `settle_phi` return the same on every reachable net (`settle_is_settle_phi`). *)
 From BS Require Import Net Net_proofs Net_proofs2 Net_proofs5 Net_proofs6 Net_proofs7 Net_proofs9 Net_proofs10 Net_props Net_props2
-  Net_proofs23 Net_proofs24 Net_proofs27 Net_proofs28 Net_proofs32 Server Server_inv.
+  Net_proofs23 Net_proofs24 Net_proofs27 Net_proofs28 Net_proofs29 Net_proofs31 Net_proofs32 Net_proofs34 Net_proofs35 Net_proofs36 Server Server_inv.
 From Coq Require Import ZArith Lia.
 Open Scope N_scope.
 
@@ -249,6 +254,133 @@ Example C14_records_equal_phi_nonvacuous :
   wl_i 0 (fst r2) = [c1] /\ option_map s_wants (server_of (fst r2) 1) = Some [(0, [c1])].
 Proof. cbn zeta. repeat match goal with |- _ /\ _ => split end; vm_compute; try reflexivity; lia. Qed.
 
+(* ---------- the bound on rounds, and settle_terminates ---------- *)
+(* nothing is in flight after a round; on such a net a round lowers HH + AA *)
+Theorem J_clean_round_decreases (Sz : N) (Hh : hash_fn) (HSz : 32 <= Sz) n ops :
+  Forall (nop_good Sz Hh) ops -> Forall (nop_wf Sz) ops ->
+  let s := fst (nrun Sz Hh (net_init n) ops) in
+  cleanb (fst (round Sz Hh s)) = true /\
+  (cleanb s = true -> quietb s = false -> (HH (fst (round Sz Hh s)) + AA (fst (round Sz Hh s)) < HH s + AA s)%nat).
+Proof.
+  intros Hg Hw s. split; [apply (round_clean Sz Hh HSz)|]. intros Hc Hq.
+  apply (clean_round_decreases Sz Hh HSz s (J_reachable_RI Sz Hh HSz n ops Hg Hw) Hc Hq).
+Qed.
+
+Theorem J_HH_fuel (Sz : N) (Hh : hash_fn) (HSz : 32 <= Sz) n ops :
+  Forall (nop_good Sz Hh) ops -> Forall (nop_wf Sz) ops ->
+  let s := fst (nrun Sz Hh (net_init n) ops) in (HH s + 3 <= settle_fuel s)%nat /\ (AA s <= 2)%nat.
+Proof. intros Hg Hw s. split; [apply (HH_fuel Sz Hh HSz), reachable_ok; assumption | apply AA_le2]. Qed.
+
+(* THE theorem of the package: the fuel of `settle` suffices *)
+Theorem settle_terminates (Sz : N) (Hh : hash_fn) (HSz : 32 <= Sz) n ops :
+  Forall (nop_good Sz Hh) ops -> Forall (nop_wf Sz) ops ->
+  let s := fst (nrun Sz Hh (net_init n) ops) in quietb (fst (settle Sz Hh s)) = true.
+Proof. exact (Net_proofs36.settle_terminates Sz Hh HSz n ops). Qed.
+
+Theorem refresh_terminates (Sz : N) (Hh : hash_fn) (HSz : 32 <= Sz) n ops :
+  Forall (nop_good Sz Hh) ops -> Forall (nop_wf Sz) ops ->
+  let s := fst (nrun Sz Hh (net_init n) ops) in
+  let r1 := settle Sz Hh s in
+  quietb (fst r1) = true /\ quietb (fst (refresh Sz Hh (fst r1))) = true.
+Proof. exact (Net_proofs36.refresh_terminates Sz Hh HSz n ops). Qed.
+
+(* for every net that satisfies the invariants (so the statements compose: settle, advance, settle, …) *)
+Theorem settle_terminates_inv (Sz : N) (Hh : hash_fn) (HSz : 32 <= Sz) s :
+  net_ok Sz Hh s -> net_live s -> quietb (fst (settle Sz Hh s)) = true /\ net_ok Sz Hh (fst (settle Sz Hh s)) /\ net_live (fst (settle Sz Hh s)).
+Proof.
+  intros Hok Hl. split; [apply (settle_terminates_RI Sz Hh HSz); split; assumption|].
+  apply (settle_loop_RI Sz Hh HSz). split; assumption.
+Qed.
+
+Corollary settle_is_settle_phi (Sz : N) (Hh : hash_fn) (HSz : 32 <= Sz) n ops :
+  Forall (nop_good Sz Hh) ops -> Forall (nop_wf Sz) ops ->
+  let s := fst (nrun Sz Hh (net_init n) ops) in settle Sz Hh s = settle_phi Sz Hh s.
+Proof. intros Hg Hw s. apply (settle_quiet_agrees Sz Hh HSz n ops Hg Hw), settle_terminates; assumption. Qed.
+
+(* the registered theorems without the hypotheses `quietb … = true` *)
+Theorem C02_direct_unconditional (Sz : N) (Hh : hash_fn) (HSz : 32 <= Sz) (i j : N) (q : qid) (c : cid) n ops :
+  Forall (nop_good Sz Hh) ops -> Forall (nop_wf Sz) ops ->
+  let s := fst (nrun Sz Hh (net_init n) ops) in
+  live_query i q c s -> Net.connected s i j = true ->
+  (exists st d, store_of s j = Some st /\ store_get st c = SHit d) ->
+  let r1 := settle Sz Hh s in
+  let r2 := refresh Sz Hh (fst r1) in
+  (length (wl_i i (fst r1)) <= 1024)%nat ->
+  answered i q (snd r1 ++ snd r2).
+Proof. exact (Net_proofs36.C02_direct_unconditional Sz Hh HSz i j q c n ops). Qed.
+
+Theorem C02_multi_hop_unconditional (Sz : N) (Hh : hash_fn) (HSz : 32 <= Sz) (i j k : N) (qi qj : qid) (c : cid) n ops :
+  Forall (nop_good Sz Hh) ops -> Forall (nop_wf Sz) ops ->
+  let s := fst (nrun Sz Hh (net_init n) ops) in
+  live_query i qi c s -> live_query j qj c s ->
+  Net.connected s i j = true -> Net.connected s j k = true ->
+  (exists st d, store_of s k = Some st /\ store_get st c = SHit d) ->
+  let r1 := settle Sz Hh s in
+  let r2 := refresh Sz Hh (fst r1) in
+  let r3 := refresh Sz Hh (fst r2) in
+  (length (wl_i j (fst r1)) <= 1024)%nat -> (length (wl_i i (fst r2)) <= 1024)%nat ->
+  answered i qi (snd r1 ++ snd r2 ++ snd r3).
+Proof. exact (Net_proofs36.C02_multi_hop_unconditional Sz Hh HSz i j k qi qj c n ops). Qed.
+
+Theorem C14_records_equal_unconditional (Sz : N) (Hh : hash_fn) (HSz : 32 <= Sz) (i j : N) n ops :
+  Forall (nop_good Sz Hh) ops -> Forall (nop_wf Sz) ops ->
+  let s := fst (nrun Sz Hh (net_init n) ops) in
+  Net.connected s i j = true ->
+  let r1 := settle Sz Hh s in
+  let r2 := refresh Sz Hh (fst r1) in
+  (length (wl_i i (fst r1)) <= 1024)%nat ->
+  forall c, In c (wl_i i (fst r2)) <-> (exists st, server_of (fst r2) j = Some st /\ wantsP (s_wants st) i c).
+Proof. exact (Net_proofs36.C14_records_equal_unconditional Sz Hh HSz i j n ops). Qed.
+
+(* non-vacuity: the six-node mesh on which Phi exceeds the fuel: HH = 0, AA = 2, two rounds, settle ends quiet; and the
+   scenarios of Net_props / Net_props2 (hypotheses met, conclusions as observed there) *)
+Example settle_terminates_nonvacuous :
+  let s := fst (nrun SZ toyH (net_init 6) mesh6_ops) in
+  quietb s = false /\ HH s = 0%nat /\ AA s = 2%nat /\ AA (fst (round SZ toyH s)) = 1%nat /\
+  quietb (fst (round SZ toyH (fst (round SZ toyH s)))) = true /\ quietb (fst (settle SZ toyH s)) = true.
+Proof. cbn zeta. repeat match goal with |- _ /\ _ => split end; vm_compute; reflexivity. Qed.
+
+Example C02_direct_unconditional_nonvacuous :
+  let s := fst (nrun SZ toyH (net_init 2) ex_ops) in
+  let r1 := settle SZ toyH s in let r2 := refresh SZ toyH (fst r1) in
+  live_query 0 0 c1 s /\ Net.connected s 0 1 = true /\
+  (exists st d, store_of s 1 = Some st /\ store_get st c1 = SHit d) /\
+  (length (wl_i 0 (fst r1)) <= 1024)%nat /\ snd r1 ++ snd r2 = [EResponse 0 0 d1].
+Proof.
+  cbn zeta. repeat match goal with |- _ /\ _ => split end.
+  - eexists _, _. split; [vm_compute; reflexivity|]. split; [left; reflexivity | left; reflexivity].
+  - vm_compute. reflexivity.
+  - eexists _, _. split; vm_compute; reflexivity.
+  - vm_compute. lia.
+  - vm_compute. reflexivity.
+Qed.
+
+Example C02_multi_hop_unconditional_nonvacuous :
+  let s := fst (nrun SZ toyH (net_init 3) ex_hop_ops) in
+  let r1 := settle SZ toyH s in let r2 := refresh SZ toyH (fst r1) in let r3 := refresh SZ toyH (fst r2) in
+  live_query 0 0 c1 s /\ live_query 1 0 c1 s /\ Net.connected s 0 1 = true /\ Net.connected s 1 2 = true /\
+  (exists st d, store_of s 2 = Some st /\ store_get st c1 = SHit d) /\
+  (length (wl_i 1 (fst r1)) <= 1024)%nat /\ (length (wl_i 0 (fst r2)) <= 1024)%nat /\
+  snd r1 ++ snd r2 ++ snd r3 = [EResponse 1 0 d1; EResponse 0 0 d1].
+Proof.
+  cbn zeta. repeat match goal with |- _ /\ _ => split end.
+  - eexists _, _. split; [vm_compute; reflexivity|]. split; [left; reflexivity | left; reflexivity].
+  - eexists _, _. split; [vm_compute; reflexivity|]. split; [left; reflexivity | left; reflexivity].
+  - vm_compute. reflexivity.
+  - vm_compute. reflexivity.
+  - eexists _, _. split; vm_compute; reflexivity.
+  - vm_compute. lia.
+  - vm_compute. lia.
+  - vm_compute. reflexivity.
+Qed.
+
+Example C14_records_equal_unconditional_nonvacuous :
+  let s := fst (nrun SZ toyH (net_init 2) ex_rec_ops) in
+  let r1 := settle SZ toyH s in let r2 := refresh SZ toyH (fst r1) in
+  Net.connected s 0 1 = true /\ (length (wl_i 0 (fst r1)) <= 1024)%nat /\
+  wl_i 0 (fst r2) = [c1] /\ option_map s_wants (server_of (fst r2) 1) = Some [(0, [c1])].
+Proof. cbn zeta. repeat match goal with |- _ /\ _ => split end; vm_compute; try reflexivity; lia. Qed.
+
 Print Assumptions J_reachable_live.
 Print Assumptions J_step_monotone.
 Print Assumptions J_round_decreases.
@@ -268,3 +400,16 @@ Print Assumptions C14_records_equal_phi.
 Print Assumptions C02_direct_phi_nonvacuous.
 Print Assumptions C02_multi_hop_phi_nonvacuous.
 Print Assumptions C14_records_equal_phi_nonvacuous.
+Print Assumptions J_clean_round_decreases.
+Print Assumptions J_HH_fuel.
+Print Assumptions settle_terminates.
+Print Assumptions refresh_terminates.
+Print Assumptions settle_terminates_inv.
+Print Assumptions settle_is_settle_phi.
+Print Assumptions C02_direct_unconditional.
+Print Assumptions C02_multi_hop_unconditional.
+Print Assumptions C14_records_equal_unconditional.
+Print Assumptions settle_terminates_nonvacuous.
+Print Assumptions C02_direct_unconditional_nonvacuous.
+Print Assumptions C02_multi_hop_unconditional_nonvacuous.
+Print Assumptions C14_records_equal_unconditional_nonvacuous.
